@@ -992,6 +992,9 @@ class TermCanvas(Canvas):
         else:
             row = self.scrollregion_start
 
+        if row > self.scrollregion_end:
+            return  # below the scrolling region: ignored
+
         if lines == 0:
             lines = 1
 
@@ -1010,6 +1013,9 @@ class TermCanvas(Canvas):
             row = self.term_cursor[1]
         else:
             row = self.scrollregion_start
+
+        if row > self.scrollregion_end:
+            return  # below the scrolling region: ignored
 
         if lines == 0:
             lines = 1
